@@ -221,8 +221,12 @@ def body_kl_and_plotly(ctx, n, ub, m):
     calls = []
 
     def entropy(a, b):
-        calls.append((list(np.asarray(a, dtype=object)), list(np.asarray(b, dtype=object))))
-        return float(len(calls))
+        # recording stand-in for scipy's relative entropy: 0 for equal arguments (as the real one), otherwise a value that
+        # identifies the call
+        la, lb = list(np.asarray(a, dtype=object)), list(np.asarray(b, dtype=object))
+        same = len(la) == len(lb) and np.allclose(np.array(la, dtype=float), np.array(lb, dtype=float))
+        calls.append((la, lb, 0.0 if same else float(len(calls) + 1)))
+        return calls[-1][2]
 
     fake_scipy = type("S", (), {"stats": type("St", (), {"entropy": staticmethod(entropy)})})
     with rebind(M, np=_np_shim(), scipy=fake_scipy):
@@ -234,7 +238,7 @@ def body_kl_and_plotly(ctx, n, ub, m):
         k = len(c1)
         want1 = [(c + 0.5) / (sum(c1) + k / 2) for c in c1]
         want2 = [(c + 0.5) / (sum(c2) + k / 2) for c in c2]
-        ctx.prove(len(calls) == 1 and dist == 1.0, "kl-distance-is-one-entropy-call")
+        ctx.prove(len(calls) == 1 and dist == calls[0][2], "kl-distance-is-one-entropy-call")
         ctx.prove(np.allclose(np.array(calls[0][0], dtype=float), want1) and np.allclose(np.array(calls[0][1], dtype=float), want2),
                   "kl-distance-arguments-are-the-corrected-leaf-distributions")
         del calls[:]
@@ -257,11 +261,14 @@ def body_kl_and_plotly(ctx, n, ub, m):
             pid = None if pid is None or (isinstance(pid, float) and np.isnan(pid)) else int(pid)
             ok = ok and row["depth"] == depth and row["cell_count"] == b and row["count_diff"] == t - b and pid == parent.get(id(nd))
             # Kulldorff statistic: corrected divergence between the two-cell (node vs rest) distributions
-            a1, a2 = calls[i]
             w1 = [(b + 0.5) / (ref_max + 1), (ref_max - b + 0.5) / (ref_max + 1)]
             w2 = [(t + 0.5) / (test_max + 1), (test_max - t + 0.5) / (test_max + 1)]
-            ok = ok and np.allclose(np.array(a1, dtype=float), w1) and np.allclose(np.array(a2, dtype=float), w2)
-            ok = ok and row["kss"] == float(i + 1)
+            made = [c for c in calls if np.allclose(np.array(c[0], dtype=float), w1) and np.allclose(np.array(c[1], dtype=float), w2)]
+            if made:
+                ok = ok and any(row["kss"] == c[2] for c in made)
+            else:
+                # no divergence computed for this node: only right when the two distributions coincide
+                ok = ok and np.allclose(w1, w2) and row["kss"] == 0
         ctx.prove(ok, "plotly-rows-consistent-with-tree-and-kss-arguments")
         # any filled id can be the reference of the frame: every node is listed, also nodes whose count is 0
         del calls[:]
@@ -288,6 +295,9 @@ def jobs(tier):
                 exp = ("single-leaf",) + (("split",) if n > ub else ())
                 out.append(Job(f"build-d{d}-n{n}-ub{ub}", "checks.c08:body_build", {"n": n, "d": d, "ub": ub}, expect=exp,
                                opts={"validate": 1}))
+    # three features: the split axis must cycle 0, 1, 2 (with one or two features `depth - 1` cycles the same way)
+    out.append(Job("build-d3-n3-ub1", "checks.c08:body_build", {"n": 3, "d": 3, "ub": 1}, expect=("single-leaf", "split", "deep"),
+                   opts={"validate": 1}))
     mm = 2 if q else 3
     for d, n in ((1, 3), (2, 3)):
         for m1 in (0, 1, mm):
